@@ -112,14 +112,14 @@ func (sr *SelectRelation) Materialize(aggRunner *AggRunner, catDir *catalog.Dire
 		Validate the SELECT list
 	*/
 	var valid bool
-	var keepList, missing []string // List of all columns needed in the output result
+	var missing []string // columns of the select list not found in the source
 	if !sr.IsSelectAll {
 		/*
 			Set up a validator via a map of the primary data columns to the
 			relation output names
 		*/
 		dsv = append(dsv, io.DataShape{Name: "Epoch", Type: io.INT64})
-		valid, missing, keepList, _, err = SourceValidator(dsv, sr.SelectList)
+		valid, missing, _, _, err = SourceValidator(dsv, sr.SelectList)
 		if err != nil {
 			return nil, err
 		}
@@ -596,20 +596,22 @@ func (sr *SelectRelation) Materialize(aggRunner *AggRunner, catDir *catalog.Dire
 		Handle column projection and aliases
 	*/
 	if !sr.IsSelectAll && !skipProjection {
-		// Column projection
-		err = outputColumnSeries.Project(keepList)
-		if err != nil {
-			return nil, err
-		}
-		// Column alias remapping on exit
+		// Column projection and alias remapping in ONE pass over the select list: every output
+		// column is taken from the (still complete) input series, so an alias that equals the
+		// name of another selected column cannot destroy that column.
+		projected := io.NewColumnSeries()
 		for _, item := range sr.SelectList {
-			if item.IsAliased {
-				err := outputColumnSeries.Rename(item.Alias, item.PrimaryName)
-				if err != nil {
-					return nil, err
-				}
+			col := outputColumnSeries.GetColumn(item.PrimaryName)
+			if col == nil {
+				return nil, fmt.Errorf("error: Source column named %s does not exist", item.PrimaryName)
 			}
+			outName := item.PrimaryName
+			if item.IsAliased {
+				outName = item.Alias
+			}
+			projected.AddColumn(outName, col)
 		}
+		outputColumnSeries = projected
 	}
 
 	/*
